@@ -30,26 +30,70 @@ type machine struct {
 	steps  int
 }
 
-func newMachine(p *prog, init map[string]value) *machine {
+// newMachine returns a machine; init holds, per global passed to Run, the
+// value it was built from (see initVar); regs, if not nil, holds registers
+// that override it (the state a pointer initialiser was left in by a
+// previous run).
+func newMachine(p *prog, init map[string]value, regs ...map[string]value) *machine {
 	m := &machine{p: p, reg: map[string]value{}, used: map[string]bool{}, clos: map[string]op{}}
-	for k, v := range init {
-		m.reg[k] = v
+	for _, g := range p.Globals {
+		if v, ok := init[g.Name]; ok {
+			m.initVar(g.Name, g.Type, v)
+		}
+	}
+	for _, r := range regs {
+		for k, v := range r {
+			m.reg[k] = v
+		}
+	}
+	if p.LibVar != "" {
+		m.reg["L:"+p.LibVar+"|"] = value{N: 77}
 	}
 	return m
 }
 
-func (m *machine) show(v string) string {
-	if m.p.typeOf(v) == "string" {
-		return m.reg[v].S
+// key is the register of a variable or of one of its components.
+func key(v, f string) string { return v + "|" + f }
+
+// initVar stores the initial value of a variable: a struct gets N, N+1 in its
+// fields and an array N, N+1, N+2 in its elements.
+func (m *machine) initVar(name, typ string, v value) {
+	cs := components(typ)
+	if cs == nil {
+		m.reg[key(name, "")] = v
+		return
 	}
-	return fmt.Sprintf("%d", m.reg[v].N)
+	for i, c := range cs {
+		m.reg[key(name, c)] = value{N: v.N + i}
+	}
+}
+
+func (m *machine) show(v, f string) string {
+	if f == "" && components(m.p.typeOf(v)) != nil {
+		f = components(m.p.typeOf(v))[0]
+	}
+	if m.p.typeOf(v) == "string" {
+		return m.reg[key(v, f)].S
+	}
+	return fmt.Sprintf("%d", m.reg[key(v, f)].N)
 }
 
 func (m *machine) store(o op) {
-	if m.p.typeOf(o.V) == "string" {
-		m.reg[o.V] = value{S: fmt.Sprintf("w%d", o.ID)}
-	} else {
-		m.reg[o.V] = value{N: 1000 + o.ID}
+	typ := m.p.typeOf(o.V)
+	switch {
+	case typ == "string":
+		m.reg[key(o.V, "")] = value{S: fmt.Sprintf("w%d", o.ID)}
+	case o.F == "" && components(typ) != nil:
+		// T{A: n} and [3]int{n}: the other components become zero
+		for i, c := range components(typ) {
+			if i == 0 {
+				m.reg[key(o.V, c)] = value{N: 1000 + o.ID}
+			} else {
+				m.reg[key(o.V, c)] = value{}
+			}
+		}
+	default:
+		m.reg[key(o.V, o.F)] = value{N: 1000 + o.ID}
 	}
 }
 
@@ -59,10 +103,18 @@ func (m *machine) run(ops []op) {
 		switch o.K {
 		case "read":
 			m.used[o.V] = true
-			m.events = append(m.events, event{o.ID, m.show(o.V)})
-		case "write":
+			m.events = append(m.events, event{o.ID, m.show(o.V, o.F)})
+		case "write", "ptrw":
 			m.used[o.V] = true
 			m.store(o)
+		case "inc":
+			m.used[o.V] = true
+			m.reg[key(o.V, o.F)] = value{N: m.reg[key(o.V, o.F)].N + 1}
+		case "tuple":
+			for _, w := range o.Body {
+				m.used[w.V] = true
+				m.store(w)
+			}
 		case "call":
 			m.run(m.p.macro(o.Name).Ops)
 		case "decl":
@@ -74,7 +126,7 @@ func (m *machine) run(ops []op) {
 			if d.W {
 				m.store(d)
 			} else {
-				m.events = append(m.events, event{o.ID, m.show(d.V)})
+				m.events = append(m.events, event{o.ID, m.show(d.V, d.F)})
 			}
 		case "render":
 			m.run(m.p.Partials[o.Name])
